@@ -1,4 +1,5 @@
 import Drv.Basic
+import Drv.PureExec
 /-! The model side of the line protocol: one operation per line, one observation per line. -/
 namespace Drv
 open Sodg
@@ -10,12 +11,13 @@ inductive HS where
 
 structure World where
   hs : Array (Option HS) := #[]
+  cfg : PureCfg := {}
 
 def World.get (w : World) (h : Nat) : Option HS := (w.hs.getD h none)
 
 def World.set (w : World) (h : Nat) (s : HS) : World :=
   let hs := if h < w.hs.size then w.hs else w.hs ++ Array.replicate (h + 1 - w.hs.size) none
-  { hs := hs.setIfInBounds h (some s) }
+  { w with hs := hs.setIfInBounds h (some s) }
 
 def parseHandle (s : String) : Option Nat :=
   match s.toList with
@@ -92,7 +94,9 @@ def coreCall (g : G) (op : Op) : HS × String :=
 def execLine (w : World) (line : String) : World × String :=
   match words line with
   | [] => (w, "")
-  | ["reset"] => ({}, "ok")
+  | ["reset"] => ({ w with hs := #[] }, "ok")
+  | "hex" :: rest => (w, execHex w.cfg rest)
+  | "label" :: rest => (w, execLabel rest)
   | ["new", h, n, c] =>
     match parseHandle h, n.toNat?, c.toNat? with
     | some h, some n, some c => (w.set h (.live (empty n c)), "ok")
